@@ -3,6 +3,7 @@ import AdaVerif.Lemmas.AggEditors
 import AdaVerif.Lemmas.UrlSetters
 import AdaVerif.Lemmas.ParseInv
 import AdaVerif.Lemmas.AggSetPathname
+import AdaVerif.Lemmas.Protocol
 /-
 C04 — `ada::url` and `ada::url_aggregator` are observationally identical.
 
@@ -228,6 +229,29 @@ theorem pathname_agrees (L ty : Nat) (u : Url) (v : Bytes) (g : Good u) (hty : A
     simp only [Bool.false_eq_true, ↓reduceIte]
     exact view_guard u _ g ⟨AdaVerif.Lemmas.recinv_pathname u v g.inv, hns⟩ L
   · simp [view, (view_of_good u g).1]
+
+theorem path_protocol (u : Url) (v : Bytes) : (setProtocol u v).path = u.path := by
+  rw [AdaVerif.Lemmas.Proto.scan_spec]
+  split
+  · simp only [protocolCore]; repeat' split
+    all_goals rfl
+  · rfl
+
+/-- **set_protocol: both types agree** - scan, fast/slow path of the scheme lookup, refusals, default-port removal,
+    limit check: same buffer, offsets and return value -/
+theorem protocol_agrees (L ty : Nat) (u : Url) (v : Bytes) (g : Good u) (hty : (ty == 6) = (u.scheme == bFile))
+    (hsch : u.scheme ≠ []) (hfile : u.scheme = bFile → u.host.isSome = true) :
+    view (setProtocolR L ty (recOf u) v) = setProtocolM L u.isSpecial (u.scheme == bFile) (layout (ofUrl u)) v := by
+  have ok := credOk_of_recInv u g.inv
+  rw [AdaVerif.Lemmas.Proto.setProtocolR_eq L ty u v ok hty, AdaVerif.Lemmas.Proto.setProtocolM_eq L u v ok hsch hfile]
+  cases hs : AdaVerif.Model.scanProtocol v with
+  | empty => simp [view, (view_of_good u g).1]
+  | reject => simp [view, (view_of_good u g).1]
+  | name n =>
+    simp only
+    split
+    · exact view_guard u _ g ⟨AdaVerif.Lemmas.recinv_protocol u v g.inv, by rw [path_protocol]; exact g.noSlash⟩ L
+    · simp [view, (view_of_good u g).1]
 
 /-- the hypotheses are satisfiable -/
 example : Good { scheme := bHttps, host := some (.domain (ofStr "h")), path := [ofStr "a", []] } :=
